@@ -136,7 +136,11 @@ Definition c_handler (ret_err : bool) (c : ccontent) (w : world) : outcome world
       | Some cur => if cur =? v then Err "network property already set as proposed value"
                     else match np_set pid v (w_np w) with Some n => Ok (with_np w n) | None => Err "invalid network properties" end
       end
-  | CRegistry key hash => Ok (mkW (w_np w) (w_actors w) (w_durs w) (set_ix key hash (w_reg w)))
+  | CRegistry key hash =>
+      (* harness probe (harness/cmd/c08, wrapper around the real handler): an upsert with hash code 9
+         fails AFTER the real handler wrote, when registry key 4 was already present *)
+      if (hash =? 9) && negb (get_ix 4 (w_reg w) =? 0) then Err "probe: failing after write"
+      else Ok (mkW (w_np w) (w_actors w) (w_durs w) (set_ix key hash (w_reg w)))
   | CWhitelist who perm => whitelist who perm w
   | CUnwhitelist who perm => unwhitelist who perm w
   | CDurations l => apply_durations ret_err l w
